@@ -94,7 +94,10 @@ def m0_result_is_fresh(prog, ctx, rule="M0"):
             continue
         srcs = [r]
         if r.k == "DeclRefExpr" and r.j.get("dk") == "local":
-            srcs = [d for l9, d, s9 in m.assignments() if (l9["name"] if isinstance(l9, dict) else render(l9)) == r.j["name"] and d is not None]
+            srcs = [d for l9, d, s9 in m.assignments() if (l9["name"] if isinstance(l9, dict) else (l9.strip().j.get("name") if l9.strip().k == "DeclRefExpr" else render(l9)))
+                    == r.j["name"] and d is not None and not d.is_null_const()]
+            if not srcs:
+                continue            # only ever NULL
         bad = [x for x in srcs if any(re.search(r"(?<![\w>.])%s(?![\w])" % re.escape(p9), render(x)) for p9 in ins)]
         fresh = [x for x in srcs if x.strip().k == "CallExpr" and x.strip().j.get("callee") in ("calloc", "malloc")]
         if bad:
